@@ -61,6 +61,13 @@ def make_overlay(work):
             if f.endswith(".go"):
                 rel = os.path.relpath(d, shims)
                 rep[os.path.join(REPO, rel, f)] = os.path.join(d, f)
+    # shims for the standard library (crypto/tls: the server's own ClientHello parser, C07)
+    goroot = subprocess.run(["go", "env", "GOROOT"], capture_output=True, text=True, env=ENV).stdout.strip()
+    std = os.path.join(ROOT, "shims_std")
+    for d, _, files in os.walk(std):
+        for f in files:
+            if f.endswith(".go"):
+                rep[os.path.join(goroot, "src", os.path.relpath(d, std), f)] = os.path.join(d, f)
     p = os.path.join(work, "overlay.json")
     with open(p, "w") as fh:
         json.dump({"Replace": rep}, fh)
